@@ -381,9 +381,16 @@ impl Indexable for ast::MultiClass {
         let multiclass_id = ctx.symbol_map.add_multiclass(multiclass);
 
         ctx.scopes.push(ScopeKind::Multiclass(multiclass_id));
-        self.template_arg_list()?.index(ctx);
-        self.parent_class_list()?.index(ctx);
-        self.statement_list()?.index(ctx);
+        // the template argument list is optional: its absence must not skip the body or leave the scope open
+        if let Some(list) = self.template_arg_list() {
+            list.index(ctx);
+        }
+        if let Some(list) = self.parent_class_list() {
+            list.index(ctx);
+        }
+        if let Some(list) = self.statement_list() {
+            list.index(ctx);
+        }
         ctx.scopes.pop();
 
         None
